@@ -89,7 +89,7 @@ func (p *parser) expression(prec int) (Node, error) {
 				return nil, err
 			}
 
-			right, err := p.projection(precedence(lexer.ObjectWildcardToken))
+			right, err := p.projection(projectionPrecedence)
 			if err != nil {
 				return nil, err
 			}
@@ -350,7 +350,7 @@ func (p *parser) expression(prec int) (Node, error) {
 				return nil, err
 			}
 
-			right, err := p.projection(newPrec)
+			right, err := p.projection(projectionPrecedence)
 			if err != nil {
 				return nil, err
 			}
@@ -1637,7 +1637,7 @@ func (p *parser) primaryExpression() (Node, error) {
 			return nil, err
 		}
 
-		child, err := p.projection(precedence(lexer.ObjectWildcardToken))
+		child, err := p.projection(projectionPrecedence)
 		if err != nil {
 			return nil, err
 		}
@@ -1654,7 +1654,7 @@ func (p *parser) primaryExpression() (Node, error) {
 			return nil, err
 		}
 
-		child, err := p.projection(precedence(lexer.ObjectWildcardToken))
+		child, err := p.projection(projectionPrecedence)
 		if err != nil {
 			return nil, err
 		}
@@ -1882,7 +1882,7 @@ func (p *parser) projection(prec int) (Node, error) {
 			return nil, err
 		}
 
-		child, err := p.projection(precedence(lexer.ObjectWildcardToken))
+		child, err := p.projection(projectionPrecedence)
 		if err != nil {
 			return nil, err
 		}
@@ -1987,7 +1987,7 @@ func (p *parser) projection(prec int) (Node, error) {
 				return nil, err
 			}
 
-			right, err := p.projection(precedence(lexer.ObjectWildcardToken))
+			right, err := p.projection(projectionPrecedence)
 			if err != nil {
 				return nil, err
 			}
@@ -2064,25 +2064,20 @@ func (p *parser) projection(prec int) (Node, error) {
 				Filter: filter,
 			}
 		case lexer.ObjectWildcardToken:
-			if p.curr.Type == lexer.EndToken {
-				if err := p.advance(); err != nil {
-					return nil, err
-				}
+			if err := p.advance(); err != nil {
+				return nil, err
+			}
 
+			right, err := p.projection(projectionPrecedence)
+			if err != nil {
+				return nil, err
+			}
+
+			if right == nil {
 				node = &ObjectValuesNode{
 					Child: node,
 				}
 			} else {
-				p.setCurrent(lexer.Token{
-					Type:  lexer.AsteriskToken,
-					Value: p.curr.Value[1:],
-				})
-
-				right, err := p.expression(newPrec)
-				if err != nil {
-					return nil, err
-				}
-
 				node = &ProjectObjectNode{
 					Left:  node,
 					Right: right,
